@@ -188,6 +188,10 @@ func runC08(c *Ctx) {
 		}
 		mk := func(id, parent string) {
 			key, iv := r.Bytes(32), r.Bytes(16)
+			if r.Chance(1, 8) { // the all-zero key ("no encryption" at registration): the Demon still decrypts every layer with it
+				key = make([]byte, 32)
+				c.Count("key.zero")
+			}
 			l := fmt.Sprintf("agent %s %s %s %s", id, hx(key), hx(iv), hx(keystream(key, iv, 3000)))
 			if parent != "" {
 				l += " " + parent
